@@ -112,7 +112,7 @@ func TestC11SeqGroup(t *testing.T) {
 		m := groupMachine(gg.name, gg.g)
 		snaps := m.takeSnapshots()
 		t.Run(gg.name, func(t *testing.T) {
-			vlib.Check(t, vlib.N(160, 1200)/gg.div, func(t *rapid.T) { m.run(t, snaps) })
+			vlib.Check(t, vlib.N(600, 2400)/gg.div, func(t *rapid.T) { m.run(t, snaps) })
 		})
 	}
 }
